@@ -36,12 +36,14 @@ THEOREMS = [
     "Nix.C01.C01_source_read",
     "Nix.C01.C01_source_len_size",
     "Nix.C01.C01_source_create",
+    "Nix.C01.C01_source_step",
     "Nix.C01.C01_conversion",
     "Nix.C01.C01_refused_kinds",
     "Nix.C01.C01_raised_unchanged",
     "Nix.C01.C01_performed_step",
     "Nix.C01.C01_typed_history",
     "Nix.C01.C01_typed_always",
+    "Nix.C01.C01_typed_append_concat",
     "Nix.C01.C01_create_typed",
     "Nix.C01.C01_read_rule",
     "Nix.C01.C01_ellipsis",
@@ -50,20 +52,32 @@ THEOREMS = [
 ASSUMPTIONS = [
     "libhdf5/h5py storage is replaced by an executable stand-in (NdArray: extent change keeps surviving multi-indices "
     "and fills new ones, a hyperslab write replaces exactly the selected elements with h5py's source broadcasting, "
-    "close/reopen and the gzip filter do not change content); the theorems are about nixio's logic on top of that "
-    "stand-in, the correspondence runs (bit-pattern comparison on real HDF5 files) speak for the stand-in",
-    "data is supplied in the array's own element type, or as integers exactly representable in it; conversion "
-    "between element kinds (float->int truncation, HDF5 saturation, text<->number refusals) is numpy/h5py behaviour "
-    "outside the model",
+    "index arguments are normalised as h5py._selector does incl. Ellipsis, close/reopen and the gzip filter do not "
+    "change content); the theorems are about nixio's logic on top of that stand-in, the correspondence runs "
+    "(bit-pattern comparison on real HDF5 files) speak for the stand-in",
+    "conversion between element kinds on a write (which pairs are refused and with which exception; integer "
+    "saturation, float truncation, rounding to nearest-even, HDF5's overflow-to-inf, NaN payload truncation) is a "
+    "model of what libhdf5 1.14 / h5py 3.16 do on x86-64 (Pure/NdConv.lean), compared bit for bit by the "
+    "correspondence; two cases are left out because C leaves them undefined: NaN written into an integer array, and a "
+    "float equal to 2^31, 2^32, 2^63 or 2^64 written into an integer array",
     "text never contains NUL (h5py refuses embedded NULs in variable-length strings)",
     "rank >= 1 (the property quantifies over ranks 1..4; 0-d arrays are outside the generators)",
     "source arrays with a zero-length left-over leading dimension (h5py accepts them without a size check) are "
     "outside the generators",
-    "index regions are integers and slices (no Ellipsis, no fancy indexing: C06's subject)",
+    "index items are integers (Python or numpy), slices and Ellipsis; boolean masks and index lists (fancy indexing) "
+    "are C06's subject",
+    "the compiler harness/extract/datasetshape.py renders the Python subset of the array I/O methods faithfully "
+    "(expressions over ints and tuples of ints, comprehensions over enumerate/zip, if/raise, try/except-reraise); "
+    "statements it only pins as text (string decoding after a read, calibration, name/compression handling in "
+    "create_data_array) are modelled by hand",
 ]
 TRUSTED_EXTRA = ["harness/extract/compression.py renders the Compression enum and the resolution statements of "
                  "File.__init__, File.create_block, Block.__init__, Block.create_data_array, DataArray.create_new, "
-                 "H5DataSet.__init__"]
+                 "H5DataSet.__init__",
+                 "harness/extract/datasetshape.py compiles DataSet.append/__getitem__/__setitem__/write_direct/len/"
+                 "shape/size/_read_data/_write_data/data_extent, H5DataSet.write_data/read_data/shape, "
+                 "DataArray._read_data and the argument rules of Block.create_data_array into Lean definitions over "
+                 "the vocabulary of NixModel/Pure/NdGen.lean"]
 
 DTYPES = ["uint8", "uint16", "uint32", "uint64", "int8", "int16", "int32", "int64", "float32", "float64", "bool",
           "string"]
@@ -152,14 +166,49 @@ def dtype_name(da):
     return np.dtype(dt).name
 
 
-def to_index(ixs):
-    return tuple(i if isinstance(i, int) else slice(i[0], i[1], i[2]) for i in ixs)
+def _items(ix):
+    """index argument JSON -> (form, items): legacy list = a tuple whose spelling the step number decides"""
+    if isinstance(ix, dict):
+        return ix["f"], ix["i"]
+    return None, ix
 
 
-def spell_index(ixs, k):
-    """the index expression as a user would write it: a one-component index is written bare (da[0], da[1:3]) on
-    every other step and as a 1-tuple otherwise (NumPy gives both the same meaning; nixio's code paths differ)"""
-    t = to_index(ixs)
+def _item(i, npint=False):
+    if i == "...":
+        return Ellipsis
+    if isinstance(i, int):
+        return np.int64(i) if npint else i
+    return slice(i[0], i[1], i[2])
+
+
+def to_index(ix, npint=False):
+    """the index as a tuple (numpy mirror / shape computations)"""
+    return tuple(_item(i, npint) for i in _items(ix)[1])
+
+
+def n_plain(ix):
+    """number of index items that are not Ellipsis"""
+    return sum(1 for i in _items(ix)[1] if i != "...")
+
+
+def has_bad_step(ix):
+    return any(isinstance(i, list) and i[2] is not None and i[2] < 1 for i in _items(ix)[1])
+
+
+def spell_index(ix, k):
+    """the index expression as a user would write it.  New format: the form is explicit (tuple / bare item /
+    None).  Legacy lists: a one-component index is written bare (da[0], da[1:3]) on every other step and as a
+    1-tuple otherwise (NumPy gives both the same meaning; nixio's code paths differ).  Every third step spells
+    integers as numpy integers."""
+    form, items = _items(ix)
+    npint = (k % 3 == 2)
+    t = tuple(_item(i, npint) for i in items)
+    if form == "n":
+        return None
+    if form == "b":
+        return t[0]
+    if form == "t":
+        return t
     if len(t) == 1 and k % 2 == 0:
         return t[0]
     return t
@@ -390,7 +439,55 @@ def bcast_shape(dshape, tshape):
     return ds
 
 
-def _mirror_assign(mirror, ix, d):
+def kind_of(dtname):
+    if dtname == "string":
+        return "text"
+    if dtname == "bool":
+        return "bool"
+    return "float" if dtname.startswith("float") else "int"
+
+
+def convert_exact(d, src_dt, tgt_dt):
+    """the data as values of the target element type if every element is exactly representable there (then the
+    property fixes what a later read returns), else None (lossy or impossible conversion: the property is silent)"""
+    if src_dt == tgt_dt:
+        return d.astype(mirror_dtype(tgt_dt))
+    ks, kt = kind_of(src_dt), kind_of(tgt_dt)
+    if ks == "text" or kt == "text":
+        return None
+    with np.errstate(all="ignore"):
+        try:
+            if ks == "float" and kt in ("int", "bool"):
+                if not np.all(np.isfinite(d)) or not np.all(d == np.trunc(d)):
+                    return None
+                ints = [int(x) for x in d.reshape(-1)]
+            elif ks == "float":
+                c = d.astype(np.dtype(tgt_dt))
+                back = c.astype(d.dtype)
+                if back.tobytes() != d.tobytes():
+                    return None
+                return c
+            else:
+                ints = [int(x) for x in d.reshape(-1)]
+            if kt == "bool":
+                if any(v not in (0, 1) for v in ints):
+                    return None
+                return np.array([bool(v) for v in ints], dtype=np.bool_).reshape(d.shape)
+            if kt == "int":
+                lo, hi = INT_RANGE[tgt_dt]
+                if any(v < lo or v > hi for v in ints):
+                    return None
+                return np.array(ints, dtype=np.dtype(tgt_dt)).reshape(d.shape)
+            # integers / booleans into a float type: exact iff the round trip returns the integer
+            c = np.array([float(v) for v in ints], dtype=np.float64).astype(np.dtype(tgt_dt)).reshape(d.shape)
+            if any((not np.isfinite(x)) or int(x) != v for x, v in zip(c.reshape(-1), ints)):
+                return None
+            return c
+        except (OverflowError, ValueError):
+            return None
+
+
+def _mirror_assign(mirror, ix, d, src_dt, dtn):
     try:
         target = mirror[ix]
     except Exception:
@@ -401,15 +498,20 @@ def _mirror_assign(mirror, ix, d):
         if 0 in d.shape[:max(0, len(d.shape) - len(tshape))]:
             return "any", None          # zero-length surplus dimension: h5py does not check it (outside the generators)
         return "refuse", None
+    conv = convert_exact(d, src_dt, dtn)
+    if conv is None:
+        return "any", None
     new = mirror.copy()
-    src = d.astype(mirror.dtype).reshape(ds)
+    src = conv.reshape(ds)
     if tshape == ():
         new[ix] = src.reshape(())[()]
     else:
         full = np.empty(tshape, dtype=mirror.dtype)
         full[...] = np.broadcast_to(src, tshape)
         new[ix] = full
-    return "ok", new
+    # data of another kind (a float for a boolean array ...): the storage layer may refuse it; if it takes it, the
+    # exactly representable values must come back
+    return ("ok" if kind_of(src_dt) == kind_of(dtn) else "maybe"), new
 
 
 def in_h5py_hole(mirror, st):
@@ -419,6 +521,8 @@ def in_h5py_hole(mirror, st):
         ix, d = (slice(None),), st[1]
     elif st[0] == "assign":
         ix, d = to_index(st[1]), st[2]
+        if _items(st[1])[0] == "n":
+            ix = (slice(None),)
     else:
         return False
     try:
@@ -435,18 +539,27 @@ def mirror_step(mirror, dtn, st):
     if op == "reopen":
         return "ok", mirror
     if op == "write":
-        return _mirror_assign(mirror, (slice(None),), arr_to_np(st[1]))
+        return _mirror_assign(mirror, (slice(None),), arr_to_np(st[1]), st[1]["dt"], dtn)
     if op == "assign":
+        if _items(st[1])[0] == "n":      # da[None] = x is nixio's spelling of "the whole array"
+            return _mirror_assign(mirror, (slice(None),), arr_to_np(st[2]), st[2]["dt"], dtn)
         ix = to_index(st[1])
-        if any(isinstance(i, slice) and i.step is not None and i.step < 1 for i in ix):
+        if has_bad_step(st[1]):
             return "any", None          # numpy accepts negative steps, h5py does not: not a C01 matter
-        if len(ix) > mirror.ndim:
+        if n_plain(st[1]) > mirror.ndim:
             return "refuse", None
-        return _mirror_assign(mirror, ix, arr_to_np(st[2]))
+        return _mirror_assign(mirror, ix, arr_to_np(st[2]), st[2]["dt"], dtn)
     if op == "append":
         d = np.ascontiguousarray(arr_to_np(st[1]))      # documented: the result has ndim >= 1
         if append_valid(mirror.shape, d.shape, st[2]):
-            return "ok", np.concatenate([mirror, d.astype(mirror.dtype)], axis=st[2])
+            conv = convert_exact(d, st[1]["dt"], dtn)
+            if conv is None:
+                # data that cannot be stored exactly: if it has no elements the append still changes the shape
+                if d.size == 0:
+                    return "ok", np.concatenate([mirror, np.empty(d.shape, dtype=mirror.dtype)], axis=st[2])
+                return "any", None
+            return ("ok" if kind_of(st[1]["dt"]) == kind_of(dtn) or d.size == 0 else "maybe"), \
+                np.concatenate([mirror, conv], axis=st[2])
         return "refuse", None
     if op == "resize":
         ext = st[1]
@@ -476,8 +589,16 @@ def expected_create(case):
     dtn = c["dtype"] or c["data"]["dt"]
     if c["dtype"] is None and c["data"]["dt"] == "string":
         return "any", None, None      # text without dtype=DataType.String: refused by h5py (C12 looks at the leftovers)
+    conv = convert_exact(d, c["data"]["dt"], dtn)
+    if conv is None:
+        if d.size == 0 and kind_of(dtn) != "text" and kind_of(c["data"]["dt"]) != "text":
+            conv = np.empty(d.shape, dtype=mirror_dtype(dtn))
+        else:
+            return "any", None, None  # data that the element type cannot hold exactly: the property is silent
     m = np.empty(d.shape, dtype=mirror_dtype(dtn))
-    m[...] = d.astype(mirror_dtype(dtn))
+    m[...] = conv
+    if kind_of(c["data"]["dt"]) == "float" and kind_of(dtn) == "bool" and d.size:
+        return "any", None, None      # h5py has no conversion from floats to booleans
     return "ok", dtn, m
 
 
@@ -547,11 +668,10 @@ def oracle_case(case, path):
             if st[0] == "read":
                 r = apply_step(sess, st, k)
                 try:
-                    want = mirror[to_index(st[1])]
+                    want = mirror if _items(st[1])[0] == "n" else mirror[to_index(st[1])]
                 except Exception:
                     want = None
-                if want is not None and len(st[1]) <= mirror.ndim and not any(
-                        isinstance(i, list) and i[2] is not None and i[2] < 1 for i in st[1]):
+                if want is not None and n_plain(st[1]) <= mirror.ndim and not has_bad_step(st[1]):
                     n += 1
                     if r["r"] != "ok":
                         return Failure("valid region read was refused", dict(case, steps=case["steps"][:k]), r["r"],
@@ -565,6 +685,8 @@ def oracle_case(case, path):
                 continue
             exp, new = mirror_step(mirror, dtn, st)
             r = apply_step(sess, st, k)
+            if exp == "maybe":
+                exp = "ok" if r == "ok" else "any"
             if exp == "any":
                 if r != "ok":
                     f = check("after refused step %d %s" % (k, st[0]), k)
@@ -644,10 +766,53 @@ class Gen:
     def small_int_elem(self):
         return self.rng.randint(0, 100)
 
-    def arr(self, dt, shape, small=False):
+    FLOATS = [0.0, -0.0, 1.0, -1.0, 0.5, -0.5, 0.999, 1.5, -1.5, 2.0, 7.0, 100.25, 127.0, 128.0, 255.0, 256.0, -128.0,
+              -129.0, 32767.0, 65535.0, 65536.0, 16777216.0, 3e9, -3e9, 2147483520.0, 4294967040.0, 1e19, -1e19,
+              9.2233720368547e18, 1.84467440737095e19, 1e30, -1e30, float("inf"), float("-inf"), 1e-30, -1e-30]
+    FORBIDDEN = (2.0 ** 31, 2.0 ** 32, 2.0 ** 63, 2.0 ** 64)
+
+    def conv_elem(self, src, tgt):
+        """an element of type `src` destined for an array of another type `tgt`"""
+        import struct
+        r = self.rng
+        ks, kt = kind_of(src), kind_of(tgt)
+        if ks == "int":
+            lo, hi = INT_RANGE[src]
+            c = r.random()
+            if c < 0.45:
+                return r.randint(0, min(hi, 100))
+            if c < 0.6 and kt == "bool":
+                return r.randint(0, 1)
+            return self.elem(src)
+        if ks == "float" and kt == "int":
+            # NaN and the rounded-up upper bounds of the 32/64-bit integer types are not fixed by C (see NdConv.lean)
+            x = r.choice(self.FLOATS) if r.random() < 0.6 else (
+                float(r.randint(-300, 300)) if r.random() < 0.6 else r.uniform(-70000.0, 70000.0))
+            if src == "float32":
+                x = struct.unpack("<f", struct.pack("<f", x))[0]
+                if abs(x) in self.FORBIDDEN:
+                    x = 1.0
+                return struct.unpack("<I", struct.pack("<f", x))[0]
+            if abs(x) in self.FORBIDDEN:
+                x = 1.0
+            return struct.unpack("<Q", struct.pack("<d", x))[0]
+        if ks == "float" and kt == "float" and r.random() < 0.4:
+            x = r.choice(self.FLOATS + [3.4028234663852886e38, 3.4028235677973366e38, 3.40282357e38, 1e-45, 7e-46,
+                                        1.1754943508222875e-38, 1.0000000596046448, 1.0000001788139343, 16777217.0])
+            if src == "float32":
+                try:
+                    return struct.unpack("<I", struct.pack("<f", x))[0]
+                except OverflowError:
+                    return 0x7f800000
+            return struct.unpack("<Q", struct.pack("<d", x))[0]
+        return self.elem(src)
+
+    def arr(self, dt, shape, small=False, tgt=None):
         n = 1
         for s in shape:
             n *= s
+        if tgt is not None and tgt != dt:
+            return {"dt": dt, "shape": list(shape), "flat": [self.conv_elem(dt, tgt) for _ in range(n)]}
         return {"dt": dt, "shape": list(shape),
                 "flat": [self.small_int_elem() if small else self.elem(dt) for _ in range(n)]}
 
@@ -659,10 +824,24 @@ class Gen:
         return [self.extent() for _ in range(rank)]
 
     def data_dt(self, dt):
-        """dtype of a source array: the array's own, sometimes another integer type (values stay representable)"""
-        if dt in INTS and self.rng.random() < 0.15:
-            return self.rng.choice(INTS), True
-        return dt, False
+        """element type of a source array: mostly the array's own; otherwise any of the 12 (converted by HDF5 or
+        refused).  Second component: the array's type when the source has another one (steers the values)."""
+        r = self.rng
+        if r.random() < 0.72:
+            return dt, None
+        c = r.random()
+        if c < 0.45:
+            ddt = r.choice(INTS)
+        elif c < 0.75:
+            ddt = r.choice(["float32", "float64"])
+        elif c < 0.9:
+            ddt = "bool"
+        else:
+            ddt = "string"
+        if ddt == dt:
+            return dt, None
+        self.tag("src.kind.%s->%s" % (kind_of(ddt), kind_of(dt)))
+        return ddt, dt
 
     def ix(self, n, bad_ok=True):
         r = self.rng
@@ -685,8 +864,12 @@ class Gen:
         return [bound(), bound(), st]
 
     def ixs(self, shape, bad_ok=True):
+        """an index argument in the explicit format: tuple / bare item / None, items possibly Ellipsis"""
         r = self.rng
         rank = len(shape)
+        if r.random() < 0.02:
+            self.tag("index.none")
+            return {"f": "n", "i": []}
         c = r.random()
         if c < 0.7:
             k = rank
@@ -694,11 +877,28 @@ class Gen:
             k = r.randint(0, rank)
         else:
             k = rank + r.randint(1, 2)
-        return [self.ix(shape[i] if i < rank else 2, bad_ok) for i in range(k)]
+        items = [self.ix(shape[i] if i < rank else 2, bad_ok) for i in range(k)]
+        if r.random() < 0.18:
+            # Ellipsis: drop some items (so that it stands for 0..rank axes), insert it anywhere
+            drop = r.randint(0, min(len(items), rank))
+            pos = r.randint(0, len(items) - drop)
+            tail_shape = shape[pos + drop:]
+            tail = [self.ix(tail_shape[i] if i < len(tail_shape) else 2, bad_ok) for i in range(len(items) - drop - pos)]
+            items = items[:pos] + ["..."] + tail
+            self.tag("index.ellipsis")
+            if bad_ok and r.random() < 0.06:
+                items.insert(r.randint(0, len(items)), "...")
+                self.tag("index.two-ellipses")
+        if len(items) == 1 and r.random() < 0.5:
+            self.tag("index.bare")
+            return {"f": "b", "i": items}
+        return {"f": "t", "i": items}
 
     def sel_shape(self, shape, ixs):
         """array shape of the selection (None when numpy refuses the index)"""
         try:
+            if _items(ixs)[0] == "n":
+                return list(shape)
             return list(np.empty(tuple(shape), dtype=np.int8)[to_index(ixs)].shape)
         except Exception:
             return None
@@ -739,19 +939,19 @@ class Gen:
             ddt, conv = self.data_dt(dt)
             if r.random() < 0.7:
                 self.tag("write.exact")
-                return ["write", self.arr(ddt, shape, conv)], shape
+                return ["write", self.arr(ddt, shape, tgt=conv)], shape
             s = self.source_shape(shape)
             self.tag("write.other")
-            return ["write", self.arr(ddt, s, conv)], shape
+            return ["write", self.arr(ddt, s, tgt=conv)], shape
         if c < 0.43:
             ixs = self.ixs(shape)
             ts = self.sel_shape(shape, ixs)
             ddt, conv = self.data_dt(dt)
             if ts is None:
                 self.tag("assign.badindex")
-                return ["assign", ixs, self.arr(ddt, [self.rng.randint(0, 2)], conv)], shape
+                return ["assign", ixs, self.arr(ddt, [self.rng.randint(0, 2)], tgt=conv)], shape
             self.tag("assign")
-            return ["assign", ixs, self.arr(ddt, self.source_shape(ts), conv)], shape
+            return ["assign", ixs, self.arr(ddt, self.source_shape(ts), tgt=conv)], shape
         if c < 0.7:
             ddt, conv = self.data_dt(dt)
             x = r.random()
@@ -762,7 +962,7 @@ class Gen:
                 self.tag("append.valid")
                 new = list(shape)
                 new[axis] += ds[axis]
-                return ["append", self.arr(ddt, ds, conv), axis], new
+                return ["append", self.arr(ddt, ds, tgt=conv), axis], new
             if x < 0.84:
                 # axis that names no dimension, shapes equal (the D15 class) or not
                 axis = r.choice([-1, rank, -rank, rank + 1, -2, 7])
@@ -772,7 +972,7 @@ class Gen:
                 if r.random() < 0.3 and rank:
                     ds[r.randrange(rank)] += 1
                 self.tag("append.badaxis")
-                return ["append", self.arr(ddt, ds, conv), axis], shape
+                return ["append", self.arr(ddt, ds, tgt=conv), axis], shape
             if x < 0.93:
                 axis = r.randrange(rank)
                 ds = list(shape)
@@ -781,14 +981,14 @@ class Gen:
                     j = r.choice([i for i in range(rank) if i != axis])
                     ds[j] += r.choice([1, 2])
                     self.tag("append.shapemismatch")
-                    return ["append", self.arr(ddt, ds, conv), axis], shape
+                    return ["append", self.arr(ddt, ds, tgt=conv), axis], shape
                 self.tag("append.valid")
                 new = list(shape)
                 new[axis] += ds[axis]
-                return ["append", self.arr(ddt, ds, conv), axis], new
+                return ["append", self.arr(ddt, ds, tgt=conv), axis], new
             ds = list(shape) + [1] if r.random() < 0.5 else list(shape)[1:]
             self.tag("append.rankmismatch")
-            return ["append", self.arr(ddt, ds, conv), r.randrange(rank)], shape
+            return ["append", self.arr(ddt, ds, tgt=conv), r.randrange(rank)], shape
         if c < 0.82:
             x = r.random()
             if x < 0.85:
@@ -823,13 +1023,14 @@ class Gen:
                 create["dtype"] = dt
             self.tag("create.data")
         elif c < 0.55:
-            # dtype argument differs from the data's (integers, representable values)
-            ddt = r.choice(INTS)
-            dt = r.choice(INTS)
+            # dtype argument differs from the data's: any pair of the 12 types (converted, or refused by h5py)
+            ddt = r.choice(DTYPES)
+            if ddt == dt:
+                ddt = r.choice(INTS)
             cdt = dt
-            create["data"] = self.arr(ddt, shape, True)
+            create["data"] = self.arr(ddt, shape, tgt=dt) if ddt != dt else self.arr(ddt, shape)
             create["dtype"] = dt
-            self.tag("create.data+otherdtype")
+            self.tag("create.data+otherdtype.%s->%s" % (kind_of(ddt), kind_of(dt)))
         elif c < 0.67:
             create["data"] = self.arr(dt, shape)
             create["dtype"] = dt if (dt == "string" or r.random() < 0.5) else None
@@ -873,6 +1074,11 @@ class Gen:
                     self.tag("skipped.zero-length-surplus-source")
                     continue
                 e2, new = mirror_step(mirror, dtn, st) if st[0] != "read" else ("ok", mirror)
+                if e2 == "maybe":
+                    # performed iff the storage layer converts this pair of kinds (the generator may know that: it
+                    # only steers the shapes of later steps)
+                    e2 = "ok" if kind_of(st[1 if st[0] != "assign" else 2]["dt"]) != "float" or kind_of(dtn) != "bool" \
+                        else "any"
                 if e2 == "ok":
                     if new.size > size_cap:
                         continue
@@ -895,6 +1101,40 @@ FIXED_CASES = [
      "create": {"dtype": None, "shape": None, "data": {"dt": "float64", "shape": [2, 2], "flat": [1, 2, 3, 4]}},
      "steps": [["append", {"dt": "float64", "shape": [2, 2], "flat": [5, 6, 7, 8]}, 2], ["reopen"],
                ["append", {"dt": "float64", "shape": [2, 2], "flat": [5, 6, 7, 8]}, -2]]},
+    # an index that is falsy in Python (0, the empty tuple) addresses one row / the whole array - never "no index"
+    {"fc": "Auto", "bc": "Auto", "ac": "Auto", "refetched": False,
+     "create": {"dtype": None, "shape": None, "data": {"dt": "int32", "shape": [3, 2], "flat": [1, 2, 3, 4, 5, 6]}},
+     "steps": [["assign", {"f": "b", "i": [0]}, {"dt": "int32", "shape": [2], "flat": [7, 8]}],
+               ["read", {"f": "b", "i": [1]}], ["assign", {"f": "t", "i": [0]}, {"dt": "int32", "shape": [], "flat": [9]}],
+               ["read", {"f": "t", "i": []}], ["assign", {"f": "t", "i": []}, {"dt": "int32", "shape": [], "flat": [4]}],
+               ["assign", {"f": "t", "i": [0, 0]}, {"dt": "int32", "shape": [], "flat": [-1]}],
+               ["read", {"f": "b", "i": ["..."]}], ["reopen"], ["read", {"f": "n", "i": []}]]},
+    # chunks without elements still have an extent along the append axis; all-ones shapes keep their rank on a read
+    {"fc": "No", "bc": "No", "ac": "DeflateNormal", "refetched": False,
+     "create": {"dtype": "float32", "shape": [3, 0], "data": None},
+     "steps": [["append", {"dt": "float32", "shape": [2, 0], "flat": []}, 0],
+               ["append", {"dt": "float32", "shape": [5, 2], "flat": list(range(0x3f800000, 0x3f80000a))}, 1],
+               ["resize", [1, 1]], ["read", {"f": "t", "i": [[0, 1, None], [0, 1, None]]}],
+               ["read", {"f": "t", "i": [0, "..."]}], ["read", {"f": "t", "i": [0, 0]}], ["reopen"]]},
+    # data of another kind: converted (saturation, truncation, rounding) or refused - a refused append restores
+    {"fc": "Auto", "bc": "DeflateNormal", "ac": "Auto", "refetched": True,
+     "create": {"dtype": "int8", "shape": None, "data": {"dt": "int64", "shape": [3], "flat": [-300, 5, 300]}},
+     "steps": [["append", {"dt": "string", "shape": [2], "flat": ["61", "62"]}, 0],
+               ["append", {"dt": "float64", "shape": [2], "flat": [0x4060200000000000, 0xbff8000000000000]}, 0],
+               ["append", {"dt": "bool", "shape": [1], "flat": [True]}, 0],
+               ["assign", {"f": "t", "i": [[0, 0, None]]}, {"dt": "string", "shape": [0], "flat": []}],
+               ["assign", {"f": "b", "i": [-1]}, {"dt": "uint64", "shape": [], "flat": [2 ** 64 - 1]}], ["reopen"]]},
+    {"fc": "Auto", "bc": "Auto", "ac": "No", "refetched": False,
+     "create": {"dtype": "bool", "shape": [2], "data": None},
+     "steps": [["append", {"dt": "float64", "shape": [1], "flat": [0x3ff0000000000000]}, 0],
+               ["write", {"dt": "int16", "shape": [2], "flat": [256, 0]}],
+               ["append", {"dt": "float32", "shape": [0], "flat": []}, 0]]},
+    {"fc": "Auto", "bc": "Auto", "ac": "Auto", "refetched": False,
+     "create": {"dtype": "float32", "shape": None,
+                "data": {"dt": "float64", "shape": [4], "flat": [0x47efffffefffffff, 0x3ff0000010000000,
+                                                                  0x7ff0000000000001, 0x36a0000000000000]}},
+     "steps": [["append", {"dt": "int64", "shape": [2], "flat": [16777217, -(2 ** 63)]}, 0],
+               ["append", {"dt": "string", "shape": [1], "flat": [""]}, 0]]},
     # append after shrink-then-grow, zero extents
     {"fc": "No", "bc": "DeflateNormal", "ac": "Auto", "refetched": False,
      "create": {"dtype": "int16", "shape": [2, 3], "data": None},
